@@ -15,6 +15,8 @@ EXTENDS BondLedger, TLC
 
 CONSTANTS
   FixedCode,  \* TRUE: Bond returns early for an already recorded tx (the fix); FALSE: as originally coded
+  AtomicUnbond, \* TRUE: Unbond writes the new balance and the deletion of the fee record in one batch (the code);
+              \* FALSE: two separate durable writes (a seeded variant that must violate under crash + retry)
   LateTrack   \* FALSE: Node adds a tx to its expiry heap right after Bond returned true (the code);
               \* TRUE: only after the inner DSMR.BuildChunk succeeded (a seeded variant that must violate)
 
@@ -35,9 +37,15 @@ BondOne(st, t, rate) ==
            rec  |-> [st.rec EXCEPT ![t] = fee],                        \* AsOriginallyCoded: overwrites the record
            oks  |-> Append(st.oks, TRUE)]
 
-RECURSIVE BondFold(_, _, _, _)
-BondFold(st, txs, rate, i) ==
-  IF i > Len(txs) THEN st ELSE BondFold(BondOne(st, txs[i], rate), txs, rate, i + 1)
+(* crash points: the process dies inside Bond(txs[c]) after its (single, batched) durable write, restarts on the   *)
+(* same database and the call is retried.  c = 0: no crash.  A crash before the write is the same as no crash.     *)
+BondRetried(st, t, rate) ==
+  LET st1 == BondOne(st, t, rate) IN BondOne([st1 EXCEPT !.oks = st.oks], t, rate)
+
+RECURSIVE BondFold(_, _, _, _, _)
+BondFold(st, txs, rate, i, c) ==
+  IF i > Len(txs) THEN st
+  ELSE BondFold(IF i = c THEN BondRetried(st, txs[i], rate) ELSE BondOne(st, txs[i], rate), txs, rate, i + 1, c)
 
 (* Bonder.Unbond over a set of txs (idempotent per tx, so order and repetition do not matter) *)
 RECURSIVE UnbondSet(_, _)
@@ -48,6 +56,14 @@ UnbondSet(st, S) ==
        IN IF st.rec[t] < 0 THEN UnbondSet(st, S \ {t})
           ELSE UnbondSet([pend |-> [st.pend EXCEPT ![s] = @ - st.rec[t]],
                           rec  |-> [st.rec EXCEPT ![t] = -1]], S \ {t})
+
+(* Unbond(t) interrupted by a crash between its durable writes, restart, retry (Unbond is documented idempotent).  *)
+(* With one atomic batch the crash falls before it (the retry does everything) or after it (the retry finds no     *)
+(* record): the fee is released once.  With two separate writes the balance is already lowered while the record   *)
+(* is still there, and the retry lowers it again.                                                                  *)
+UnbondRetried(st, t) ==
+  IF st.rec[t] < 0 \/ AtomicUnbond THEN UnbondSet(st, {t})
+  ELSE [pend |-> [st.pend EXCEPT ![info[t].sp] = @ - 2 * st.rec[t]], rec |-> [st.rec EXCEPT ![t] = -1]]
 
 Init(i, m) ==
   /\ LInit(i, m)
@@ -60,9 +76,9 @@ Init(i, m) ==
 (* txs[cut+1] (database failure) and BuildChunk returned it at once; innerFails means the inner DSMR.BuildChunk      *)
 (* returned an error.  In both cases the txs already bonded stay bonded (Bond returned true for them, so Unbond is   *)
 (* owed): they must be in the expiry heap so that expiry / acceptance releases them exactly once.                    *)
-BuildChunk(txs, rate, cut, innerFails) ==
+BuildChunk(txs, rate, cut, innerFails, crashIdx) ==
   LET pre    == SubSeq(txs, 1, cut)
-      st     == BondFold([pend |-> pend, rec |-> rec, oks |-> <<>>], pre, rate, 1)
+      st     == BondFold([pend |-> pend, rec |-> rec, oks |-> <<>>], pre, rate, 1, crashIdx)
       failed == innerFails \/ cut < Len(txs)
       okd    == {pre[i] : i \in {j \in DOMAIN pre : st.oks[j]}}
   IN /\ pend' = st.pend
@@ -71,10 +87,14 @@ BuildChunk(txs, rate, cut, innerFails) ==
      /\ res' = st.oks
      /\ LBuild(pre, st.oks, rate)
 
-Accept(ts, incl) ==
+(* crashAt: the tx whose Unbond is hit by a crash + retry during this Accept ("none": no crash) *)
+Accept(ts, incl, crashAt) ==
   LET expired == {t \in heap : info[t].exp < ts}
       h1      == heap \ expired
-      st1     == UnbondSet([pend |-> pend, rec |-> rec], expired)
+      st0     == IF crashAt \in expired \cup (incl \cap h1)
+                   THEN UnbondRetried([pend |-> pend, rec |-> rec], crashAt)
+                   ELSE [pend |-> pend, rec |-> rec]
+      st1     == UnbondSet(st0, expired)
       st2     == UnbondSet(st1, incl \cap h1)
   IN /\ pend' = st2.pend
      /\ rec' = st2.rec
